@@ -86,6 +86,11 @@ def perturb(rest: str) -> str:
     return ', '.join(out)
 
 
+# free text after the value: whatever a user may jot down there (delimiters of other formats, quotes, signs, a second `--`)
+TRAILS = ['a comment, with commas -- and dashes [unit]', '-- 200 degC at 8500 ft; 228.89 degC at 9824 ft', 'note: value = 3; see "ref" (p. 4) | 50% #1',
+          "--- [kg/s]; default", 'x=1;y=2', "\t--- tab, then 'quoted' text", ': ; = | & ? !']
+
+
 def render(params: list, rng: random.Random, style: str) -> str:
     lines = []
     eol = '\r\n' if style == 'crlf' else '\n'
@@ -95,14 +100,14 @@ def render(params: list, rng: random.Random, style: str) -> str:
         if name in LIST_STYLE:       # the whole comma-separated list is the value; a comment is introduced by `--`
             value, tail = rest.split('--')[0].strip().rstrip(','), ''
             if style == 'trail':
-                lines.append(f'{name}, {value} -- a comment')
+                lines.append(f'{name}, {value} -- a comment; with: signs')
                 continue
         if style == 'plain' or style == 'crlf':
             lines.append(f'{name}, {rest}')
         elif style == 'pad':
             lines.append(f'  \t{name}   ,\t {value}  ' + (f',{tail}' if tail else ''))
         elif style == 'trail':
-            lines.append(f'{name}, {value}, a comment, with commas -- and dashes [unit]')
+            lines.append(f'{name}, {value}, {TRAILS[1] if not lines else rng.choice(TRAILS)}')      # (the first line always carries the `;` one)
         elif style == 'decorate':
             if rng.random() < 0.3:
                 lines.append(rng.choice(['', '   ', '# a comment, with, commas', '-- dashed comment', '* starred', '   # Reservoir Depth, 99',
